@@ -239,6 +239,8 @@ def run():
     body += """
 /-- Does guardrails.co reset `$output_rails_in_progress` when the output rails fail? (computed from the data above) -/
 def v2FlagResetOnFailure : Bool := resetsFlagOnFailure v2RunOutputRails || resetsFlagOnFailure v2BotSay
+/-- Does guardrails.co reset `$output_rails_in_progress` when a new user message arrives (both `_user_said` overrides)? -/
+def v2FlagResetOnUserMessage : Bool := resetsFlagOnUserMessage v2UserSaid && resetsFlagOnUserMessage v2UserSaidUnexpected
 /-- Do the shipped self-check rails stop after raising their rail exception? -/
 def selfCheckInputStopsV1 : Bool := excBranchStops "InputRailException" v1SelfCheckInput
 def selfCheckOutputStopsV1 : Bool := excBranchStops "OutputRailException" v1SelfCheckOutput
